@@ -92,7 +92,28 @@ pub fn replay(args: &Args) {
     let mut cache = SqCache::default();
     let (mut shapes, mut accepted, mut lines_checked, mut patterns, mut recon) = (0u64, 0u64, 0u64, 0u64, 0u64);
     let mut skipped_big = 0u64;
+    // the squares the erasure patterns run on are themselves outputs of from_ods: every row and
+    // column must be a codeword (this is where the order of the three encoding passes matters)
+    for w in crate::sample::widths(args, 2) {
+        let sq = cache.get_opt(w, seed, &[], false);
+        for i in 0..w {
+            for ax in [AxisType::Row, AxisType::Col] {
+                lines_checked += 1;
+                sum.case("C08", Some(format!("cw/{w}/{i}/{}", ax as u8)), || json!({"width": w, "line": i, "stage": "extension"}));
+                if !sq.line_is_codeword(ax, i) {
+                    let class = json!({"kind": "eds-extension", "axis": format!("{ax:?}"), "half": if i < w / 2 { "data" } else { "parity" }});
+                    let ck = class.to_string();
+                    *classes.entry(ck.clone()).or_default() += 1;
+                    viols.push((ck, json!({"why": format!("from_ods square of width {w}: {ax:?} {i} is not a codeword"), "class": class,
+                                           "case": {"cls": "extension"}, "width": w})));
+                }
+            }
+        }
+    }
     for (ci, c) in cases.iter().enumerate() {
+        if c["cls"] == "extension" {
+            continue; // replayed by the loop above
+        }
         let demand = c["demand"].as_str().unwrap();
         if c["cls"] == "shape" {
             let api = c["api"].as_str().unwrap();
@@ -166,7 +187,7 @@ pub fn replay(args: &Args) {
                 let mut perm: Vec<usize> = (0..w).collect();
                 perm.shuffle(&mut StdRng::seed_from_u64(seed ^ (ci as u64) << 8 ^ w as u64));
                 let permuted: Vec<usize> = block.iter().map(|p| perm[*p]).collect();
-                let sq = cache.get(w, seed, &[]);
+                let sq = cache.get_opt(w, seed, &[], false);
                 let variants: Vec<(&str, &Vec<usize>)> = if b == 1 { vec![("block", &block)] } else { vec![("block", &block), ("perm", &permuted)] };
                 for (name, pres) in variants {
                     // every line of small squares, a sample of lines of large ones
